@@ -169,7 +169,9 @@ class C05(Check):
                    "Exp(r_j) clocks is Exp(sum r) and the argmin is Categorical(r/sum r)).  The real rexp/_newJumpTimes/firstReaction and the "
                    "draw-to-event pairing inside SimulateOde._jump (fresh draws per step) are executed symbolically; z3 decides, for all rates and "
                    "all draws: one draw per positive rate with scale exactly 1/r_j, zero-rate events draw nothing and never fire, the fired event "
-                   "has the earliest clock, dt is its own clock.  No sampling is performed; the min/argmin theorem is trusted mathematics.")
+                   "has the earliest clock, dt is its own clock.  The parallel=True branch is run with dask.bag replaced by its sequential contract: "
+                   "whatever generator it hands to the stepping code, the clocks of one step must be pairwise different draws and no draw is "
+                   "reused across steps or iterations.  No sampling is performed; the min/argmin theorem is trusted mathematics.")
     stubs = ["numpy.random.exponential(scale, size) = scale * E_k, E_k > 0 (k-th element of a symbolic stream)"]
     assumptions = ["min/argmin theorem for independent exponential clocks (not checked)", "numpy's generator produces i.i.d. unit exponentials",
                    "multinomial-occupancy / SIR final-size corollaries follow from the per-step law and are not sampled", "rates >= 0",
